@@ -73,6 +73,15 @@ CHECKS = {
              "each is replayed on real dicts (globals-only, separate locals, logging locals; absent/truthy/falsy entry) and "
              "the recorded key writes are validated against the spec; the returned value is checked on HyCore programs.",
         note="hy.eval with neither globals nor locals (caller-frame locals) is not covered."),
+    "C40": dict(
+        engine="session", level="model_checking", design="5.9, 6/C40",
+        technique="TLC exhaustive input-kind histories of HyRepl replayed through REPL.runsource; recorded sessions "
+                  "(*1 *2 *3 *e, printed output, continuation) trace-validated by TLC",
+        text="HyRepl states NoRepeat/Recency/PrintedInOrder over all histories of ok/None/compile-fail/run-fail/print-fail "
+             "inputs; every history is fed to a real REPL line by line and the recorded state after each runsource call is "
+             "validated against the spec (which allows a failed input either to leave the stars or to shift None in); "
+             "random programs split at every line break are checked for continuation prompts and script equivalence.",
+        note="Completeness of accumulated text is judged by hy's own reader (property C19 covers the reader)."),
     "C38": dict(
         engine="gensym", level="model_checking", design="5.8, 6/C38",
         technique="TLC exhaustive interleavings of the op program extracted from gensym's bytecode; "
